@@ -42,16 +42,23 @@ def validate_trace(rows, sc, tag, timeout=900):
     return r.jsons("MM"), st, r.jsons("LEMMA")
 
 
-def run_enum(binp, cfg, sc, tier):
-    path = os.path.join(sc, "cases.ndjson")
-    r, cases = lib.dump_transitions("SimilarText", cfg, path, prefix="CASE", workers=lib.NCPU, timeout=1500,
-                                    coverage=(tier == "thorough"), heap="6g")
-    if tier == "thorough":
-        z = r.coverage_zero()
-        if z:
-            raise lib.Inconclusive("vacuous: actions never taken: %s" % z)
-    rep = lib.run_report([binp, "replay", "-file", path])
-    return r, cases, rep
+def run_enum(binp, cfgs, sc, tier):
+    """Binding A for each constants file: TLC dumps the cases, the replayer runs them on the real code.
+    Returns per-cfg (TLCResult, cases, report)."""
+    out = []
+    for cfg in cfgs:
+        path = os.path.join(sc, "cases-%s.ndjson" % cfg)
+        r, cases = lib.dump_transitions("SimilarText", cfg, path, prefix="CASE", workers=lib.NCPU, timeout=1500,
+                                        coverage=(tier == "thorough"), heap="6g")
+        if tier == "thorough":
+            z = r.coverage_zero()
+            if z:
+                raise lib.Inconclusive("vacuous: actions never taken: %s" % z)
+        rep = lib.run_report([binp, "replay", "-file", path])
+        if rep["cases"] != len(cases):
+            raise lib.Inconclusive("%s: %d cases dumped, %d replayed" % (cfg, len(cases), rep["cases"]))
+        out.append((r, cases, rep))
+    return out
 
 
 def run_random(binp, n, sc, nchunks):
@@ -97,32 +104,50 @@ def confirm_b(binp, rows, sc):
     return {m["l"] - 1 for m in mm}, again
 
 
+def binding_selftest(rows, sc):
+    """DESIGN §9: a good recorded trace with one field corrupted must be rejected by the validator."""
+    good = [r for r in rows if r["find"]][:5]
+    if not good:
+        raise lib.Inconclusive("binding self-test: no recorded line with a suggestion")
+    mm, _, _ = validate_trace([dict(r, find=[], map=[]) for r in good], sc, "selftest")
+    rejected = {m["l"] for m in mm}
+    if len(rejected) != len(good):
+        raise lib.Inconclusive("binding self-test: %d of %d corrupted lines were accepted" % (len(good) - len(rejected), len(good)))
+    return {"corrupted_lines": len(good), "rejected": len(rejected)}
+
+
 def check(tier):
     t0 = time.time()
     binp = lib.build("c49")
     v = lib.Verdict(PID)
-    cfg, nrand, nchunks, floor = (("SimilarText_enum.cfg", 900, 3, 50000) if tier == "quick"
-                                  else ("SimilarText_big.cfg", 40000, max(2, lib.NCPU - 2), 150000))
+    cfgs, nrand, nchunks, floor = ((["SimilarText_enum.cfg"], 900, 3, 50000) if tier == "quick"
+                                   else (["SimilarText_enum.cfg", "SimilarText_big.cfg", "SimilarText_pairs.cfg"],
+                                         40000, max(2, lib.NCPU - 2), 250000))
     with lib.Scratch() as sc:
         with cf.ThreadPoolExecutor(max_workers=2) as ex:
-            fa = ex.submit(run_enum, binp, cfg, sc, tier)
+            fa = ex.submit(run_enum, binp, cfgs, sc, tier)
             fb = ex.submit(run_random, binp, nrand, sc, nchunks)
-            r, cases, rep = fa.result()
+            enums = fa.result()
             grep, rows, mm, st = fb.result()
-        if len(cases) < floor or rep["cases"] != len(cases):
-            raise lib.Inconclusive("too few enumerated cases: %d dumped, %d replayed (floor %d)" % (len(cases), rep["cases"], floor))
+        ncases = sum(len(cases) for _, cases, _ in enums)
+        if ncases < floor:
+            raise lib.Inconclusive("too few enumerated cases: %d (floor %d)" % (ncases, floor))
         nt_rows = {json.dumps([rows[s["l"] - 1]["name"], rows[s["l"] - 1]["cands"]]) for s in st if s["nt"]}
         if len(st) != nrand or len(nt_rows) < nrand // 5:
             raise lib.Inconclusive("random cases: %d judged of %d, %d distinct non-trivial" % (len(st), nrand, len(nt_rows)))
 
+        selftest = binding_selftest(rows, sc) if tier == "thorough" else None
         # ---- binding A mismatches, each re-run alone in a fresh process
-        for k, m in enumerate(rep["mismatches"][:CONFIRM_CAP]):
-            again = confirm_a(binp, cases[m["case"]], sc, k)
-            if not again:
-                raise lib.Inconclusive("enumerated mismatch did not reproduce: %s" % m)
-            if not any(a["signature"] == m["signature"] for a in again):
-                raise lib.Inconclusive("enumerated mismatch changed on re-run: %s vs %s" % (m, again))
-            v.add("enum/" + m["signature"], m)
+        budget = CONFIRM_CAP
+        for cfg, (r, cases, rep) in zip(cfgs, enums):
+            for k, m in enumerate(rep["mismatches"][:budget]):
+                again = confirm_a(binp, cases[m["case"]], sc, k)
+                if not again:
+                    raise lib.Inconclusive("enumerated mismatch did not reproduce: %s" % m)
+                if not any(a["signature"] == m["signature"] for a in again):
+                    raise lib.Inconclusive("enumerated mismatch changed on re-run: %s vs %s" % (m, again))
+                v.add("enum/" + m["signature"], m)
+                budget -= 1
         # ---- binding B mismatches
         bad_lines = sorted({m["l"] for m in mm})[:CONFIRM_CAP]
         if bad_lines:
@@ -135,27 +160,34 @@ def check(tier):
                     v.add("trace/%s/%s" % (m["api"], m["kind"]), m)
         rc = v.finish()
 
-        ex_a = rep["extra"]["explained_by"]
+        ex_a = {}
+        for _, _, rep in enums:
+            for k, n in rep["extra"]["explained_by"].items():
+                ex_a[k] = ex_a.get(k, 0) + n
+        nt_a = sum(rep["nontrivial"] for _, _, rep in enums)
         id_b = sum(1 for s in st if s["id"])
         lev_b = sum(1 for s in st if s["lev"])
-        samples = (rep["samples"][:2] + grep["samples"][:2]) or cases[:2]
+        samples = (enums[-1][2]["samples"][:2] + grep["samples"][:2]) or enums[0][1][:2]
         lib.write_evidence(PID, tier, "model_checking", {
-            "states": r.distinct, "transitions": len(cases),
-            "traces_validated_against_impl": len(cases) + len(st),
+            "states": sum(r.distinct for r, _, _ in enums), "transitions": ncases,
+            "traces_validated_against_impl": ncases + len(st),
             "samples": samples,
             "exhaustive": True,
-            "evaluations": rep["cases"] + len(st),
-            "distinct_nontrivial": rep["nontrivial"] + len(nt_rows),
-            "rule": "binding A: every (name, candidate list) of the bounded domain (%s) once, both Find and FindFromMap; binding B: %d seeded random cases (names <= 7 over 3-4 letters, <= 5 candidates, 70%% of candidates derived from the name by 0-4 random edits) judged by TLC; non-trivial = some candidate is within the threshold under one of the metrics or sits exactly on the threshold (decided by TLC); distinct = distinct (name, candidate list)" % (cfg, nrand),
-            "enumerated_cases": len(cases), "enumerated_nontrivial": rep["nontrivial"],
+            "evaluations": ncases + len(st),
+            "distinct_nontrivial": nt_a + len(nt_rows),
+            "rule": "binding A: every (name, candidate list) of the bounded domains (%s) once per domain, both Find and FindFromMap; binding B: %d seeded random cases (names <= 7 over 3-4 letters, <= 5 candidates, 70%% of candidates derived from the name by 0-4 random edits) judged by TLC; non-trivial = the property forbids at least one answer that could be built from the candidates (decided by TLC); distinct = distinct (name, candidate list) within a domain / within the random cases" % (", ".join(cfgs), nrand),
+            "enumerated": {cfg: {"cases": len(cases), "nontrivial": rep["nontrivial"], "states": r.distinct,
+                                 "tlc_wall_s": round(r.wall, 1), "mismatches": rep["extra"].get("mismatches_total", len(rep["mismatches"]))}
+                           for cfg, (r, cases, rep) in zip(cfgs, enums)},
             "random_lines_validated": len(st), "random_distinct_nontrivial": len(nt_rows),
-            "nonempty_suggestions": {"enumerated": rep["extra"]["nonempty_suggestions"], "random": grep["extra"]["nonempty_suggestions"]},
+            "nonempty_suggestions": {"enumerated": sum(rep["extra"]["nonempty_suggestions"] for _, _, rep in enums),
+                                     "random": grep["extra"]["nonempty_suggestions"]},
             "explained_by": {"enumerated": ex_a, "random": {"DistID": id_b, "DistLev": lev_b}},
-            "tree_explained_by_DistID_everywhere": (ex_a["DistID-or-empty-name"] == rep["cases"]
+            "tree_explained_by_DistID_everywhere": (ex_a["DistID-or-empty-name"] == ncases
                                                     and all(s["id"] or not rows[s["l"] - 1]["name"] for s in st)),
             "lemma_pairs_checked_in_traces": sum(s["lem"] for s in st),
-            "mismatches": {"enumerated": rep["extra"].get("mismatches_total", len(rep["mismatches"])), "random": len(mm)},
-            "tlc_generated": r.generated, "tlc_wall_s": round(r.wall, 1), "constants": cfg,
+            "random_mismatches": len(mm),
+            "binding_selftest": selftest,
         }, time.time() - t0, violations=len(v.violations),
             assumptions=["names are ASCII (the code is byte-wise, the specification element-wise)",
                          "the rendering ', maybe you mean X or Y?' is parsed by splitting on ' or ' (candidate names never contain it)",
